@@ -1865,9 +1865,8 @@ int64_t bufr_binary_to_int( const char *str )
 
    len = strlen( str );
    bval = 1;
-   for (i = 0; i < len ; i++)
+   for (i = 1; i < len ; i++) /* weight of the first digit: 2^(len-1), which fits for 64 digits */
       bval = bval << 1 ;
-   bval = bval >> 1;
 
    ival = 0;
    for (i = 0; i < len ; i++ )
